@@ -98,7 +98,9 @@ def run(F, chk):
             rc.broke("decoder %s not found" % p)
             continue
         for fp in F.family(p):
-            b = F.body(fp)
+            # private helpers of a decoder (prefix parsing, ..) are part of the decoder; the recvmsg wrapper stays a call
+            # (scm_guard argues from its contract)
+            b = lib.flat(F, F.body(fp), keep=("::receive_msg_and_fds",))
             rc.fn(fp)
             pans = bounds.explicit_panics(b)
             for i, (bi, c, m) in enumerate(pans):
@@ -141,7 +143,10 @@ def buffer_resize_rule(F, chk):
     for p in sorted(F.paths()):
         if not p.startswith(BUF + "::") or "{closure" in p:
             continue
-        b = F.body(p)
+        # Buffer's own accessors (capacity(), available_data(), ..) are spliced in: `self.capacity` and
+        # `self.capacity()` (whatever it is computed from) must look the same to the rule
+        import inline
+        b = inline.threaded(F, inline.inlined(F, F.body(p), policy="all", keep_pred=lambda f: not f.startswith(BUF + "::")))
         T = bounds.Terms(b)
         sites = []
         for bi, t in b.calls():
@@ -159,6 +164,9 @@ def buffer_resize_rule(F, chk):
             FX = bounds.Facts(b, bi)
             ends = [X for (X, Y) in FX.le if Y == n and X[0] == "place" and "|end" in X[1]]
             grows = [X for (X, Y) in FX.lt if Y == n and X[0] == "place" and "|capacity" in X[1]]
+            # the capacity spelled as the length of the backing vector
+            grows += [X for (X, Y) in FX.lt if Y == n and X[0] == "len" and isinstance(X[1], int) and
+                      any(f == "memory" for _, f in b.slice_back([X[1]])["fields"])]
             key = "%s|%s#%d" % (p, what, k)
             if ends or grows:
                 r.ok(key, b.where(bi), "dominated by %s" % ("end <= new size" if ends else "capacity < new size (growth)"))
